@@ -38,9 +38,10 @@ def attrs_tokens(d):
 
 
 def pt_fingerprint(p):
-    """cheap fingerprint of a point: keys + values (containers through their canonical text)"""
-    return hash(tuple((k, v if isinstance(v, (int, float, str, bool, type(None))) else canon(v))
-                      for k, v in p.items() if k != 'dataset'))
+    """cheap fingerprint of a point as a dictionary (insertion order ignored, as dict == does):
+    keys + values (containers through their canonical text)"""
+    return hash(frozenset((k, v if isinstance(v, (int, float, str, bool, type(None))) else canon(v))
+                          for k, v in p.items() if k != 'dataset'))
 
 
 def snapshot(ds):
